@@ -2,6 +2,7 @@ package main
 
 import (
 	"go/ast"
+	"go/token"
 	"go/types"
 	"sort"
 	"strings"
@@ -299,7 +300,137 @@ func c08Run(r *Run) {
 	}
 
 	// ---- LOOKUP ----
+	// the declared edge lists are read-only: a walk that filters or extends the slice a declaration
+	// hands out (parents[:0] + append, parents[i] = …) rewrites the hierarchy for every later question
+	r.curRule = "C08-EDGES"
+	for _, p := range []*packages.Package{dpkg, npkg} {
+		info := p.TypesInfo
+		isEdgeGetter := func(e ast.Expr) bool {
+			c, ok := ast.Unparen(e).(*ast.CallExpr)
+			if !ok {
+				return false
+			}
+			se, ok := ast.Unparen(c.Fun).(*ast.SelectorExpr)
+			if !ok {
+				return false
+			}
+			switch se.Sel.Name {
+			case "GetExtends", "GetImplements":
+				_, isSlice := info.TypeOf(c).Underlying().(*types.Slice)
+				return isSlice
+			}
+			return false
+		}
+		for _, fd := range funcDecls(p) {
+			if fd.Body == nil {
+				continue
+			}
+			edge := map[types.Object]token.Pos{} // locals that alias a declared edge list
+			for pass := 0; pass < 2; pass++ {
+				ast.Inspect(fd.Body, func(n ast.Node) bool {
+					as, ok := n.(*ast.AssignStmt)
+					if !ok || len(as.Lhs) != len(as.Rhs) {
+						return true
+					}
+					for i, l := range as.Lhs {
+						id, ok := l.(*ast.Ident)
+						if !ok {
+							continue
+						}
+						o := info.Defs[id]
+						if o == nil {
+							o = info.Uses[id]
+						}
+						if o == nil {
+							continue
+						}
+						rhs := ast.Unparen(as.Rhs[i])
+						// x := decl.GetExtends() / y := x / y := x[:k]
+						if isEdgeGetter(rhs) {
+							edge[o] = as.Pos()
+						} else if rid, ok := rhs.(*ast.Ident); ok && edge[info.Uses[rid]].IsValid() {
+							edge[o] = as.Pos()
+						} else if sl, ok := rhs.(*ast.SliceExpr); ok {
+							if rid, ok := ast.Unparen(sl.X).(*ast.Ident); ok && edge[info.Uses[rid]].IsValid() {
+								edge[o] = as.Pos()
+							} else if isEdgeGetter(sl.X) {
+								edge[o] = as.Pos()
+							}
+						}
+					}
+					return true
+				})
+			}
+			if len(edge) == 0 {
+				continue
+			}
+			var bad token.Pos
+			what := ""
+			isEdge := func(e ast.Expr) bool {
+				switch x := ast.Unparen(e).(type) {
+				case *ast.Ident:
+					return edge[info.Uses[x]].IsValid()
+				case *ast.SliceExpr:
+					if id, ok := ast.Unparen(x.X).(*ast.Ident); ok {
+						return edge[info.Uses[id]].IsValid()
+					}
+				}
+				return isEdgeGetter(e)
+			}
+			ast.Inspect(fd.Body, func(n ast.Node) bool {
+				switch x := n.(type) {
+				case *ast.CallExpr:
+					if id, ok := ast.Unparen(x.Fun).(*ast.Ident); ok && id.Name == "append" && len(x.Args) > 0 {
+						if _, isBuiltin := info.Uses[id].(*types.Builtin); isBuiltin && isEdge(x.Args[0]) && !bad.IsValid() {
+							bad, what = x.Pos(), "append("+exprStr(x.Args[0])+", …)"
+						}
+					}
+				case *ast.AssignStmt:
+					for _, l := range x.Lhs {
+						if ix, ok := ast.Unparen(l).(*ast.IndexExpr); ok && isEdge(ix.X) && !bad.IsValid() {
+							bad, what = x.Pos(), exprStr(l)+" = …"
+						}
+					}
+				}
+				return true
+			})
+			key := funcKey(p, fd) + "#edge-list-read-only"
+			if bad.IsValid() {
+				r.bad(key, bad, "writes into the slice a declaration hands out for its extends/implements edges ("+what+"): append on a reslice or an element store changes the declaration itself, so later instanceof / type / catch questions see a different hierarchy")
+			} else {
+				r.ok(key, fd.Pos(), "the declared edge lists are only read")
+			}
+		}
+	}
 	r.curRule = "C08-LOOKUP"
+	// dispatch nodes resolve their target on every evaluation: a call node that remembers what it
+	// resolved last time (an inline cache) answers for the wrong class when the same site is reached
+	// from another class of the hierarchy (static::, parent::, inherited methods)
+	{
+		tabled := map[string]bool{}
+		for _, e := range nodeStateTable {
+			tabled[e[0]] = true
+		}
+		writes, examined := evalClosureFieldWrites(npkg)
+		bad := map[string]bool{}
+		for _, w := range writes {
+			if !strings.HasPrefix(w.typeName, "Call") || tabled[w.typeName+"."+w.field] {
+				continue
+			}
+			bad[w.typeName] = true
+			r.bad("node.("+w.typeName+")#remembers-target:"+w.field, w.pos, "the call node stores "+w.field+" while it is evaluated: a remembered resolution is reused when the same call site is reached from another class, so late static binding / inherited dispatch picks the first caller's target")
+		}
+		names := []string{}
+		for tn := range examined {
+			if strings.HasPrefix(tn, "Call") && !bad[tn] {
+				names = append(names, tn)
+			}
+		}
+		sort.Strings(names)
+		for _, tn := range names {
+			r.ok("node.("+tn+")#resolves-every-time", examined[tn], "the call node keeps no resolution between evaluations (listed resolution caches of name-only lookups aside)")
+		}
+	}
 	if fd := findFunc(dpkg, "ClassValue", "GetMethod"); fd == nil {
 		r.fail("anchor not found: data.(ClassValue).GetMethod")
 	} else {
